@@ -362,10 +362,61 @@ def run(prop, tier, seed, t0, a):
     else:
         print(f"[{prop}] OK obligations={n_obl} discharged={len(discharged) + len(modulo)} (modulo known findings: {len(modulo)}) "
               f"functions={len(under)} backends={by_backend} wall={round(time.time() - t0, 1)}s")
-    if tier == 'thorough' and rc == 0 and hasattr(mod, 'thorough') and not a.no_mutants:
-        rc2 = mod.thorough(dict(src=src, reg=reg, eng=eng, prop=prop, seed=seed, out=OUT))
-        if rc2:
-            rc = rc2
+    if tier == 'thorough' and rc == 0 and not a.only:
+        rc = thorough_extras(prop, reg, under, a, t0)
+    return rc
+
+
+def thorough_extras(prop, reg, under, a, t0):
+    """thorough tier, after every obligation was discharged by both solvers:
+    (1) every native replay battery of the property is run once on the real code without a counter-model (a bounded search for a
+        failing input; a hit is a violation with a concrete input);
+    (2) the mutant battery of the property is run on scratch copies: the share of property-breaking mutants the check reports and
+        the harmless rewrites it stays quiet on are written to the evidence file (a surviving mutant is a weakness of the check,
+        not a violation of the property: it is reported, the exit status stays 0)."""
+    rc = 0
+    extras = dict(proactive_replays=[], mutants=[])
+    seen = set()
+    os.makedirs(os.path.join(OUT, 'out', prop), exist_ok=True)
+    for pat, fn in reg.replays:
+        if id(fn) in seen:
+            continue
+        seen.add(id(fn))
+        target = next((k for k in under if re.search(pat, k) or re.search(pat, k + '#post0')), None)
+        name = (target or pat) + '#proactive'
+        r = run_replay(fn, {}, name, timeout_s=max(120, getattr(fn, 'timeout_s', 20)))
+        hit = bool(r.get('confirmed')) and not r.get('error')
+        extras['proactive_replays'].append(dict(battery=getattr(fn, '__name__', str(fn)), as_obligation=name, failing_input_found=hit,
+                                                detail=str(r.get('detail'))[:400]))
+        if hit:
+            path = os.path.join(OUT, 'out', prop, safe_name(f"replay-battery_{getattr(fn, '__name__', 'fn')}") + '.json')
+            json.dump(dict(property=prop, obligation=name, kind='proactive replay battery', result=r), open(path, 'w'), indent=1, default=str)
+            print(f"VIOLATION property={prop} replay={path}")
+            print(f"  replay battery {getattr(fn, '__name__', fn)}: {str(r.get('detail'))[:300]}")
+            rc = 1
+    if not a.no_mutants and not os.environ.get('PYVC_REPO'):
+        from . import mutants as _m
+        for r in _m.battery(prop, jobs=3):
+            extras['mutants'].append({k: r.get(k) for k in ('name', 'ok', 'rc', 'expect', 'violations', 'confirmed', 'why')})
+            if not r['ok']:
+                print(f"SELF-CHECK property={prop} mutant {r['name']}: expected {r.get('expect')}, check exit {r.get('rc')} {r.get('why', '')}")
+    p = os.path.join(OUT, 'evidence', f'{prop}.json')
+    try:
+        ev = json.load(open(p))
+        ms = extras['mutants']
+        breaking = [m for m in ms if m.get('expect') in (None, 'violation', 'undecided-or-violation')]
+        extras['summary'] = dict(replay_batteries=len(extras['proactive_replays']), failing_inputs_found=sum(1 for x in extras['proactive_replays'] if x['failing_input_found']),
+                                 mutants=len(ms), breaking_mutants=len(breaking), breaking_mutants_reported=sum(1 for m in breaking if m['ok']),
+                                 harmless_rewrites=len(ms) - len(breaking), harmless_rewrites_quiet=sum(1 for m in ms if m not in breaking and m['ok']))
+        ev['coverage']['thorough'] = extras
+        ev['wall_s'] = round(time.time() - t0, 2)
+        if rc:
+            ev['violations'] = ev.get('violations', 0) + 1
+            ev['coverage']['status'] = 'violation'
+        json.dump(ev, open(p, 'w'), indent=1, default=str)
+        print(f"[{prop}] thorough: {extras['summary']}")
+    except Exception as e:
+        print(f"[{prop}] thorough extras could not be added to the evidence: {e}")
     return rc
 
 
